@@ -14,13 +14,37 @@ every trie state, collapse level and hash function:
                            bookkeeping lists are empty (no GC pass between commit and rollback; collision-freeness
                            relative to a subtree-closed set S ∋ t0, t1)
   C13_rollbackTrie         the same for RollbackTrie with the checkpoint given as a (hash, weight) reference
+  C13_rollback_after_gc / C13_rollbackTrie_after_gc   the same with ONE DeleteNodes pass between the commit and the
+                           rollback (hypothesis: nothing already staged in `deleted` is a node of the checkpoint — what
+                           the GC invariant of Props/C11 provides): the pass only moves the checkpoint nodes the commit
+                           superseded from tempDeleted to deleted; Rollback / RollbackTrie clear both
+  C13_rollbackTrie_copyRoot   checkpoint taken with CopyRoot(collapse level) on the committed (clean) trie: RollbackTrie
+                           installs the copy, which still represents the checkpoint over the storage (every reference it
+                           holds resolves), with and without the GC pass (`…_after_gc`)
   C13_checkpoint_answers   and the rolled-back trie then answers every block of the checkpoint: owner key, honest proof
                            bytes, proof verifies to (hash t0, owner's value)
   rollback_clears_queues   both entry points forget the rolled-back commit's created / pending-deletion lists
                            (fix 6d30809 for RollbackTrie), so later GC passes cannot delete checkpoint nodes on its behalf
+  C13_protocol_*           WHOLE HISTORIES with any number of SaveRoot / Rollback cycles, mixed with Update / Delete / Root() /
+                           Commit(any level) / DeleteNodes in any position, restricted only by the protocol under which
+                           Rollback is meaningful (automaton `pctl`, Model/WmptProtocol.lean: SaveRoot on a clean root;
+                           Rollback while the checkpoint is intact — no second Commit since SaveRoot, at most ONE
+                           DeleteNodes pass after that commit, any number before it; Rollback of uncommitted changes is
+                           allowed too). Under `ProtocolOK` (`NoSharedContent` of Props/C11 for the live contents + no
+                           collision between the content being committed and the checkpoint + a checkpoint of weight 0 is
+                           the empty trie): after EVERY accepted history the live trie represents the spec content
+                           (`pspecRun`: a Rollback falls back to the checkpoint content), every node of the last commit is
+                           in storage (`C13_protocol_stored`), while Rollback is allowed every node of the checkpoint is in
+                           storage (`C13_protocol_checkpoint_stored`), a history that ends with a clean root is
+                           recoverable with the spec's answers (`C13_protocol_recoverable`, `…_answers_are_spec`), and
+                           right after any accepted Rollback the trie answers every block like the content at the last
+                           SaveRoot (`C13_protocol_rollback_restores`). `second_gc_pass_breaks_rollback` (decide): the
+                           protocol's "one pass" bound is sharp.
 -/
 import Verif.Lemmas.WmptOps
 import Verif.Lemmas.WmptRollback
+import Verif.Lemmas.WmptCopyRoot
+import Verif.Lemmas.WmptProtocol
 import Verif.Lemmas.WmptSpec
 import Verif.Model.WmptHistory
 import Verif.Model.WmptToy
@@ -119,6 +143,79 @@ theorem C13_rollbackTrie (H : Bytes → Bytes) (hlen : ∀ x, (H x).length = 32)
          r.created = [] ∧ r.tempDeleted = [] ∧ r.pending = [] ∧ r.deleted = [])) :=
   rollbackTrie_restores H hlen hcl hinj lvl t t0 t1 hdb hcp hw0 h1 hp hd hS0 hS1
 
+/-- `C13_rollback` with one GC pass between commit and rollback -/
+theorem C13_rollback_after_gc (H : Bytes → Bytes) (hlen : ∀ x, (H x).length = 32) {S : PT → Prop}
+    (hcl : SubClosed S) (hinj : HashInj H S) (lvl : Int) (t : WT) (t0 t1 : PT) (hdb : t.hasDb = true)
+    (hcp : StoredAll H t.store t0) (hold : t.oldRoot = (PT.hash H t0, t0.weight)) (hw0 : 0 < t0.weight)
+    (h1 : RepS H t.store t.root t1) (hp : Proper t.root) (hd : t.root.dirty = true) (hS0 : S t0) (hS1 : S t1)
+    (hq : ∀ k ∈ t.deleted, ∀ x, PT.Sub x t0 → x.isNone = false → k ≠ PT.hash H x) :
+    let c := commit H t lvl
+    let c' : WT := { c.1 with store := c.1.store.apply c.2 }
+    let g := (deleteNodes c').1
+    let r := (rollback g).1
+    r.root = .hashRef (PT.hash H t0) t0.weight ∧ StoredAll H r.store t0 ∧
+      (∀ k ∈ c.1.created, r.store.get k = none) ∧ r.created = [] ∧ r.tempDeleted = [] ∧ r.pending = [] ∧ r.deleted = [] :=
+  rollback_after_gc_restores H hlen hcl hinj lvl t t0 t1 hdb hcp hold hw0 h1 hp hd hS0 hS1 hq
+
+/-- `C13_rollbackTrie` with one GC pass between commit and rollback -/
+theorem C13_rollbackTrie_after_gc (H : Bytes → Bytes) (hlen : ∀ x, (H x).length = 32) {S : PT → Prop}
+    (hcl : SubClosed S) (hinj : HashInj H S) (lvl : Int) (t : WT) (t0 t1 : PT) (hdb : t.hasDb = true)
+    (hcp : StoredAll H t.store t0) (hw0 : 0 < t0.weight)
+    (h1 : RepS H t.store t.root t1) (hp : Proper t.root) (hd : t.root.dirty = true) (hS0 : S t0) (hS1 : S t1)
+    (hq : ∀ k ∈ t.deleted, ∀ x, PT.Sub x t0 → x.isNone = false → k ≠ PT.hash H x) :
+    let c := commit H t lvl
+    let c' : WT := { c.1 with store := c.1.store.apply c.2 }
+    let g := (deleteNodes c').1
+    let r := (rollbackTrie H g (.hashRef (PT.hash H t0) t0.weight)).1
+    StoredAll H r.store t0 ∧
+      ((c'.root.hashField H = PT.hash H t0 ∧ r = g) ∨
+       (r.root = .hashRef (PT.hash H t0) t0.weight ∧ (∀ k ∈ c.1.created, r.store.get k = none) ∧
+         r.created = [] ∧ r.tempDeleted = [] ∧ r.pending = [] ∧ r.deleted = [])) :=
+  rollbackTrie_after_gc_restores H hlen hcl hinj lvl t t0 t1 hdb hcp hw0 h1 hp hd hS0 hS1 hq
+
+/-- checkpoint copy taken with `CopyRoot(collapse0)` on the committed (clean) trie `n0` representing `t0` -/
+theorem C13_rollbackTrie_copyRoot (H : Bytes → Bytes) (hlen : ∀ x, (H x).length = 32) {S : PT → Prop}
+    (hcl : SubClosed S) (hinj : HashInj H S) (lvl : Int) (t : WT) (t0 t1 : PT) {P : PT → Prop} (n0 : WN)
+    (collapse0 : Int)
+    (hdb : t.hasDb = true) (hcp : StoredAll H t.store t0) (hw0 : 0 < t0.weight) (hr0 : Rep H P n0 t0)
+    (hac0 : AllClean n0) (hp0 : Proper n0)
+    (h1 : RepS H t.store t.root t1) (hp : Proper t.root) (hd : t.root.dirty = true) (hS0 : S t0) (hS1 : S t1) :
+    let cp := copyRoot H collapse0 0 n0
+    let c := commit H t lvl
+    let c' : WT := { c.1 with store := c.1.store.apply c.2 }
+    let r := (rollbackTrie H c' cp).1
+    StoredAll H r.store t0 ∧
+      ((n0.hashField H = c'.root.hashField H ∧ r = c') ∨
+       (r.root = cp ∧ RepS H r.store r.root t0 ∧ AllClean r.root ∧ Proper r.root ∧
+         (∀ k ∈ c.1.created, r.store.get k = none) ∧
+         r.created = [] ∧ r.tempDeleted = [] ∧ r.pending = [] ∧ r.deleted = [])) :=
+  rollbackTrie_copyRoot_restores H hlen hcl hinj lvl t t0 t1 n0 collapse0 0 hdb hcp hw0 hr0 hac0 hp0 h1 hp hd hS0 hS1
+
+/-- …and with one GC pass in between (any checkpoint copy `cp` that represents `t0`, in particular a `CopyRoot` copy,
+    see `rep_copyRoot`) -/
+theorem C13_rollbackTrie_copy_after_gc (H : Bytes → Bytes) (hlen : ∀ x, (H x).length = 32) {S : PT → Prop}
+    (hcl : SubClosed S) (hinj : HashInj H S) (lvl : Int) (t : WT) (t0 t1 : PT) {P : PT → Prop} (cp : WN)
+    (hdb : t.hasDb = true) (hcp : StoredAll H t.store t0) (hw0 : 0 < t0.weight) (hrcp : Rep H P cp t0)
+    (h1 : RepS H t.store t.root t1) (hp : Proper t.root) (hd : t.root.dirty = true) (hS0 : S t0) (hS1 : S t1)
+    (hq : ∀ k ∈ t.deleted, ∀ x, PT.Sub x t0 → x.isNone = false → k ≠ PT.hash H x) :
+    let c := commit H t lvl
+    let c' : WT := { c.1 with store := c.1.store.apply c.2 }
+    let g := (deleteNodes c').1
+    let r := (rollbackTrie H g cp).1
+    StoredAll H r.store t0 ∧
+      ((cp.hashField H = c'.root.hashField H ∧ r = g) ∨
+       (r.root = cp ∧ RepS H r.store r.root t0 ∧ (∀ k ∈ c.1.created, r.store.get k = none) ∧
+         r.created = [] ∧ r.tempDeleted = [] ∧ r.pending = [] ∧ r.deleted = [])) :=
+  rollbackTrie_copy_after_gc_restores H hlen hcl hinj lvl t t0 t1 cp hdb hcp hw0 hrcp h1 hp hd hS0 hS1 hq
+
+/-- a `CopyRoot` copy of a clean trie represents the same spec tree (so it qualifies as `cp` above) -/
+theorem copyRoot_represents {H : Bytes → Bytes} {P : PT → Prop} {n : WN} {t : PT} (h : Rep H P n t) (hac : AllClean n)
+    (hp : Proper n) (collapse : Int) :
+    Rep H P (copyRoot H collapse 0 n) t ∧ (copyRoot H collapse 0 n).weight = n.weight ∧
+      (copyRoot H collapse 0 n).hashField H = n.hashField H := by
+  obtain ⟨a, _, _, d, e, _⟩ := rep_copyRoot h hac hp collapse 0
+  exact ⟨a, d, e⟩
+
 set_option maxRecDepth 100000 in
 /-- the collision-freeness hypothesis is satisfiable (it is relative to the nodes of the tries involved): the toy hash
     on the nodes of a one-key trie -/
@@ -148,5 +245,123 @@ example :
       sameAnswers toyH (hrun toyH ops).t (reopen toyH (hrun toyH cp).t) ∧
       (hrun toyH ops).t.created = [] ∧ (hrun toyH ops).t.tempDeleted = [] ∧ (hrun toyH ops).t.deleted = [] := by
   decide
+
+set_option maxRecDepth 1000000 in
+/-- realisable with a `CopyRoot(1)` checkpoint and ONE GC pass between commit and RollbackTrie (toy hash, `decide`) -/
+example :
+    let kA : List Nib := List.replicate 64 1
+    let kD : List Nib := 2 :: List.replicate 63 4
+    let kE : List Nib := 2 :: 5 :: List.replicate 62 4
+    let cpSt := (hrun toyH [.upd kA [1, 0xee] 2, .upd kD [2, 0xee] 3, .upd kE [3] 1, .commit (-1), .gc])
+    let cp := copyRoot toyH 1 0 cpSt.t.root
+    let later := [HOp.upd kA [1, 0xee] 2, .upd kD [9] 1, .del kE, .commit 2, .gc].foldl (hstep toyH) cpSt
+    let r := (rollbackTrie toyH later.t cp).1
+    r.weight = 6 ∧ sameAnswers toyH r (reopen toyH cpSt.t) ∧ r.created = [] ∧ r.tempDeleted = [] ∧ r.deleted = [] := by
+  decide
+
+/-! ### whole histories under the checkpoint protocol -/
+
+/-- the side conditions of the protocol theorems: the history is accepted by the protocol automaton; 32-byte keys and
+    non-empty values; after every prefix the live content fits the encodings and has no two node occurrences with equal
+    hash (`NoSharedContent` of Props/C11); at the first Commit after a SaveRoot no node of the content being committed
+    collides with a different node of the checkpoint; where a Rollback happens, a checkpoint of total weight 0 is the
+    empty trie (Rollback opens the empty trie for weight 0) -/
+def ProtocolOK (H : Bytes → Bytes) (ops : List HOp) : Prop :=
+  pctlRun ops ≠ none ∧ (∀ op ∈ ops, op.wf) ∧
+  (∀ p q, ops = p ++ q → RepOps.PTOK (pspecRun p).1 ∧ Distinct H (pspecRun p).1) ∧
+  (∀ p lvl q, ops = p ++ .commit lvl :: q → ∀ c, pctlRun p = some c → c.mode = .armed →
+    ∀ x y, PT.Sub x (pspecRun p).1 → PT.Sub y (pspecRun p).2.2 →
+      PT.hash H x = PT.hash H y → PT.persist H x = PT.persist H y) ∧
+  (∀ p q, ops = p ++ .rollback :: q → (pspecRun p).2.2.weight = 0 → (pspecRun p).2.2 = .none)
+
+/-- the collision clause of `ProtocolOK` follows from: no two different nodes of any two intermediate live contents have
+    the same hash -/
+theorem protocol_collision_clause (H : Bytes → Bytes) (ops : List HOp)
+    (hinj : HashInj H (fun x => ∃ p q, ops = p ++ q ∧ PT.Sub x (pspecRun p).1)) :
+    ∀ p lvl q, ops = p ++ .commit lvl :: q → ∀ c, pctlRun p = some c → c.mode = .armed →
+      ∀ x y, PT.Sub x (pspecRun p).1 → PT.Sub y (pspecRun p).2.2 →
+        PT.hash H x = PT.hash H y → PT.persist H x = PT.persist H y :=
+  protocol_hcol_of_global ops hinj
+
+/-- after any accepted history every node of the last committed trie (after a Rollback: of the checkpoint) is in storage -/
+theorem C13_protocol_stored (H : Bytes → Bytes) (hlen : ∀ x, (H x).length = 32) (ops : List HOp)
+    (h : ProtocolOK H ops) : StoredAll H (hrun H ops).t.store (pspecRun ops).2.1 :=
+  protocol_stored hlen ops h.1 h.2.1 h.2.2.1 h.2.2.2.1 h.2.2.2.2
+
+/-- while Rollback is allowed, every node of the checkpoint is in storage -/
+theorem C13_protocol_checkpoint_stored (H : Bytes → Bytes) (hlen : ∀ x, (H x).length = 32) (ops : List HOp)
+    (h : ProtocolOK H ops) (c : PCtl) (hc : pctlRun ops = some c) (hm : c.mode ≠ .idle) :
+    StoredAll H (hrun H ops).t.store (pspecRun ops).2.2 :=
+  protocol_checkpoint_stored hlen ops h.1 h.2.1 h.2.2.1 h.2.2.2.1 h.2.2.2.2 c hc hm
+
+/-- an accepted history that ends with a clean root (after a Commit or a Rollback) is recoverable -/
+theorem C13_protocol_recoverable (H : Bytes → Bytes) (hlen : ∀ x, (H x).length = 32) (ops : List HOp)
+    (h : ProtocolOK H ops) (hd : (hrun H ops).t.root.dirty = false) :
+    sameAnswers H (reopen H (hrun H ops).t) (hrun H ops).t :=
+  protocol_recoverable hlen ops h.1 h.2.1 h.2.2.1 h.2.2.2.1 h.2.2.2.2 hd
+
+/-- …with the spec's answers -/
+theorem C13_protocol_answers_are_spec (H : Bytes → Bytes) (hlen : ∀ x, (H x).length = 32) (ops : List HOp)
+    (h : ProtocolOK H ops) (hd : (hrun H ops).t.root.dirty = false) (b : Nat) (hb1 : 1 ≤ b)
+    (hb : b ≤ (pspecRun ops).1.weight) :
+    ∃ k v key, ownerSpec (pspecRun ops).1.entries b = some (k, v) ∧ RepMore.keybytesToHex key = k ∧ key.length = 32 ∧
+      (blockProof H (reopen H (hrun H ops).t) b).2 =
+        .ok (key, Cbor.encTrie (((pspecRun ops).1.proofPairs H b).map Cbor.encBase)) ∧
+      (blockProof H (hrun H ops).t b).2 =
+        .ok (key, Cbor.encTrie (((pspecRun ops).1.proofPairs H b).map Cbor.encBase)) ∧
+      verifyPairs H (((pspecRun ops).1.proofPairs H b).map PairD.ok) b = .ok ((rootHash H (hrun H ops).t).2, v) :=
+  protocol_answers_are_spec hlen ops h.1 h.2.1 h.2.2.1 h.2.2.2.1 h.2.2.2.2 hd b hb1 hb
+
+/-- MAIN (protocol form of C13): right after ANY accepted Rollback — whatever cycles of SaveRoot / changes / Commit /
+    GC / Rollback preceded it — the live content is the content at the last SaveRoot, the root is clean, and the trie
+    answers every block like that content (owner key, honest proof bytes, proof verifies to the root) -/
+theorem C13_protocol_rollback_restores (H : Bytes → Bytes) (hlen : ∀ x, (H x).length = 32) (p : List HOp)
+    (h : ProtocolOK H (p ++ [.rollback])) :
+    (pspecRun (p ++ [.rollback])).1 = (pspecRun p).2.2 ∧
+    (hrun H (p ++ [.rollback])).t.root.dirty = false ∧
+    ∀ b, 1 ≤ b → b ≤ (pspecRun p).2.2.weight →
+      ∃ k v key, ownerSpec (pspecRun p).2.2.entries b = some (k, v) ∧ RepMore.keybytesToHex key = k ∧ key.length = 32 ∧
+        (blockProof H (hrun H (p ++ [.rollback])).t b).2 =
+          .ok (key, Cbor.encTrie (((pspecRun p).2.2.proofPairs H b).map Cbor.encBase)) ∧
+        verifyPairs H (((pspecRun p).2.2.proofPairs H b).map PairD.ok) b =
+          .ok ((rootHash H (hrun H (p ++ [.rollback])).t).2, v) := by
+  obtain ⟨h1, h2, h3⟩ := protocol_rollback_restores hlen p h.1 h.2.1 h.2.2.1 h.2.2.2.1 h.2.2.2.2
+  refine ⟨h1, h2, fun b hb1 hb => ?_⟩
+  obtain ⟨k, v, key, a1, a2, a3, _, a5, a6⟩ := h3 b hb1 hb
+  exact ⟨k, v, key, a1, a2, a3, a5, a6⟩
+
+
+set_option maxRecDepth 1000000 in
+/-- an accepted history with three checkpoint cycles (toy hash, `decide`): cycle 1 is rolled back after commit + one GC
+    pass, cycle 2 is accepted (next SaveRoot) with GC passes around it, cycle 3 rolls back uncommitted changes. The
+    protocol accepts it, and at the end the trie holds exactly the content of the last checkpoint and is recoverable -/
+example :
+    let kA : List Nib := List.replicate 64 1
+    let kD : List Nib := 2 :: List.replicate 63 4
+    let kE : List Nib := 2 :: 5 :: List.replicate 62 4
+    let ops : List HOp := [.upd kA [1, 0xee] 2, .upd kD [2, 0xee] 3, .commit (-1),
+      .saveRoot, .upd kA [1, 0xee] 2, .upd kD [9] 1, .upd kE [3] 4, .gc, .commit 1, .gc, .rollback,
+      .gc, .saveRoot, .del kD, .upd kE [3] 4, .commit 0, .gc, .root, .gc,
+      .saveRoot, .upd kA [7] 9, .gc, .rollback, .gc, .gc]
+    (pctlRun ops).isSome = true ∧ (hrun toyH ops).t.root.dirty = false ∧ (hrun toyH ops).t.weight = 6 ∧
+      (pspecRun ops).1.weight = 6 ∧ (pspecRun ops).1.entries = (pspecRun ops).2.2.entries ∧
+      sameAnswers toyH (reopen toyH (hrun toyH ops).t) (hrun toyH ops).t := by
+  refine ⟨?_, ?_, ?_, ?_, ?_, ?_⟩ <;> decide
+
+set_option maxRecDepth 1000000 in
+/-- the protocol's bound of ONE DeleteNodes pass between the commit and the Rollback is sharp: with a second pass the
+    automaton rejects the history, and indeed the rolled-back trie can no longer answer for its checkpoint (the first
+    pass staged the checkpoint nodes the commit superseded, the second deleted them) -/
+theorem second_gc_pass_breaks_rollback :
+    let kA : List Nib := List.replicate 64 1
+    let kD : List Nib := 2 :: List.replicate 63 4
+    let cp : List HOp := [.upd kA [1, 0xee] 2, .upd kD [2, 0xee] 3, .commit (-1)]
+    let ops : List HOp := cp ++ [.saveRoot, .upd kD [9] 1, .commit (-1), .gc, .gc, .rollback]
+    let ops1 : List HOp := cp ++ [.saveRoot, .upd kD [9] 1, .commit (-1), .gc, .rollback]
+    pctlRun ops = none ∧ (pctlRun ops1).isSome = true ∧
+      (hrun toyH ops).t.weight = 5 ∧ (hrun toyH ops1).t.weight = 5 ∧
+      sameAnswers toyH (hrun toyH ops1).t (reopen toyH (hrun toyH cp).t) ∧
+      Res.isOk (blockProof toyH (hrun toyH ops).t 5).2 = false := by
+  refine ⟨?_, ?_, ?_, ?_, ?_, ?_⟩ <;> decide
 
 end Verif.Props.C13
